@@ -52,3 +52,166 @@ def harness(conv, dw, bn, dense="Dense"):
       "GraphPropagateActivationsToEdges": noop,
       "GraphRemoveNode": lambda pe, a, k: removed.append(a[1])})
   return G, graph, qg, removed, topo
+
+
+def rebuild_harness(conv="Conv2D", dw="DepthwiseConv2D",
+                    bn="BatchNormalization"):
+  """Synthetic conv+BN network with several constant-operand operator layers
+  (TFOpLambda) of the same kind, for the part of convert_to_folded_model
+  that rebuilds the network from the graph.  Layers are callables that
+  record (layer name, input expressions, extra constant operand); the graph
+  is a small stateful stand-in of the networkx DiGraph (nodes, edges with a
+  "tensor" attribute, successors / predecessors, node removal that
+  reconnects u -> v -> w as u -> w).
+
+  Returns (model mock, qgraph mock, topological_sort stand-in, Model
+  stand-in, state) where state["outputs"] are the expressions of the rebuilt
+  model's outputs and state["expected"] the expression of the same network
+  with each folded batch-normalisation left out."""
+  spec = [
+      # id, class, name, successors, constant operand
+      (1, conv, "conv", [2], None),
+      (2, bn, "bn", [3], None),
+      (3, "TFOpLambda", "tf.math.multiply", [4], 3),
+      (4, "TFOpLambda", "tf.__operators__.add", [5], 5),
+      (5, "TFOpLambda", "tf.math.multiply_1", [6, 8], 7),
+      (6, dw, "dw", [7], None),
+      (7, bn, "bn_1", [8], None),
+      (8, "Add", "add", [9], None),
+      (9, "TFOpLambda", "tf.__operators__.add_1", [10], 11),
+      (10, "TFOpLambda", "tf.math.multiply_10", [-2], 13),
+  ]
+  state = {"outputs": None, "calls": []}
+
+  def tensor(expr):
+    t = Mock("tensor", {"expr": expr})
+    t.attrs["ref"] = lambda pe, a, k: ref_of(t)
+    return t
+
+  def ref_of(t):
+    return Mock("ref", {"deref": lambda pe, a, k: t})
+
+  def make_layer(cls, name):
+    lay = layer(cls, name)
+
+    def call(pe, a, k):
+      ins = a[0]
+      ins = list(ins) if isinstance(ins, (list, tuple)) else [ins]
+      y = a[1] if len(a) > 1 else k.get("y")
+      if len(a) > 2 or (k and set(k) - {"y"}):
+        y = ("unexpected-arguments", len(a), sorted(k))
+      exprs = tuple(getattr(i, "attrs", {}).get("expr", ("not-a-tensor",))
+                    for i in ins)
+      state["calls"].append((name, y))
+      return tensor((name, exprs, y))
+    lay.attrs["__call__"] = call
+    return lay
+
+  nodes = {-1: {"layer": [None], "type": ["Source"]},
+           -2: {"layer": [None], "type": ["Sink"]}}
+  succ = {-1: [1], -2: []}
+  const = {}
+  cls_of = {}
+  for i, cls, name, ss, y in spec:
+    nodes[i] = {"layer": [make_layer(cls, name)], "type": [cls]}
+    succ[i] = list(ss)
+    const[name] = y
+    cls_of[i] = (cls, name)
+  edges = {}
+  for u, ss in succ.items():
+    for v in ss:
+      edges[(u, v)] = {"tensor": ref_of(tensor(
+          ("input",) if u == -1 else ("stale-output-of", cls_of[u][1]))),
+                       "shape": [None, 8]}
+
+  def preds(v):
+    return [u for u in succ if v in succ[u]]
+
+  def remove_node(pe, a, k):
+    v = a[1]
+    inc, out = preds(v), list(succ[v])
+    for u in inc:
+      for w in out:
+        edges[(u, w)] = edges[(v, w)]
+        succ[u] = [w if s == v else s for s in succ[u]]
+    for u in inc:
+      edges.pop((u, v), None)
+    for w in out:
+      edges.pop((v, w), None)
+    succ.pop(v)
+    nodes.pop(v)
+    state.setdefault("removed", []).append(v)
+
+  def topo(pe, a, k):
+    order, seen = [], set()
+
+    def visit(n):
+      if n in seen:
+        return
+      seen.add(n)
+      for p in preds(n):
+        visit(p)
+      order.append(n)
+    for n in sorted(nodes, key=lambda n: (n == -2, n)):
+      visit(n)
+    return order
+
+  edges_mock = Mock("edges", {
+      "__getitem__": lambda pe, a, k: edges[tuple(a[0])],
+      "__call__": lambda pe, a, k: [(a[0], w) for w in succ.get(a[0], [])]})
+  graph = Mock("graph", {
+      "nodes": nodes,
+      "edges": edges_mock,
+      "successors": lambda pe, a, k: list(succ[a[0]]),
+      "predecessors": lambda pe, a, k: preds(a[0]),
+      "__getitem__": lambda pe, a, k: {w: edges[(a[0], w)]
+                                       for w in succ[a[0]]},
+  })
+  noop = lambda pe, a, k: None
+  qg = Mock("qgraph", {
+      "GenerateGraphFromModel": lambda pe, a, k: (graph, None),
+      "GraphAddSingleSourceSingleSink": noop,
+      "GraphRemoveNodeWithNodeType": noop,
+      "GraphPropagateActivationsToEdges": noop,
+      "GraphRemoveNode": remove_node})
+  cfg_layers = [{"class_name": "InputLayer", "config": {"name": "input_1"},
+                 "inbound_nodes": []}]
+  orig_pred = {}
+  for i, cls, name, ss, y in spec:
+    for v in ss:
+      orig_pred.setdefault(v, []).append(i)
+  for i, cls, name, ss, y in spec:
+    ps = [cls_of[p][1] for p in orig_pred.get(i, [])] or ["input_1"]
+    if cls == "TFOpLambda":
+      inbound = [[ps[0], 0, 0, {"y": y}]]
+    else:
+      inbound = [[[p, 0, 0, {}] for p in ps]]
+    cfg_layers.append({"class_name": cls, "config": {"name": name},
+                       "name": name, "inbound_nodes": inbound})
+  model = Mock("model", {
+      "get_config": lambda pe, a, k: {"name": "m", "layers": cfg_layers},
+      "inputs": [tensor(("input",))]})
+
+  def model_ctor(pe, a, k):
+    outs = k.get("outputs", a[1] if len(a) > 1 else None)
+    outs = list(outs) if isinstance(outs, (list, tuple)) else [outs]
+    state["outputs"] = [getattr(o, "attrs", {}).get("expr") for o in outs]
+    return Mock("new_model", {})
+
+  # the same network with the batch-normalisations that follow a
+  # single-consumer convolution left out
+  folded_bn = {2, 7}
+
+  def expected(i):
+    cls, name = cls_of[i]
+    ins = []
+    for p in orig_pred.get(i, []):
+      while p in folded_bn:
+        p = orig_pred[p][0]
+      ins.append(expected(p))
+    if not ins:
+      ins = [("input",)]
+    return (name, tuple(ins), const[name])
+  state["expected"] = [expected(10)]
+  state["constants"] = const
+  return model, qg, topo, model_ctor, state
